@@ -198,3 +198,55 @@ def try_ev(body, e, leaf):
         return None
     except (TypeError, ValueError, ZeroDivisionError):
         return None
+
+
+def walk_cfg(body, leaf, watch=None, max_steps=400):
+    """Follow the one path of a loop-free body that the given leaf values select: switch discriminants and asserts are
+    evaluated as terms (ev) with `leaf`. Returns {'calls': [(callee path, [arg values or None], loc)] for calls matching
+    `watch`, 'ret': statement that last assigned the return slot on the path (or None), 'ok': False when a discriminant
+    could not be evaluated}. Nothing is executed: calls are leaves."""
+    import re as _re
+    cur = 0
+    calls = []
+    ret = None
+    seen = set()
+    for _ in range(max_steps):
+        if cur in seen:
+            return {'calls': calls, 'ret': ret, 'ok': False, 'why': 'cycle'}
+        seen.add(cur)
+        bl = body.blocks[cur]
+        for st in bl['stmts']:
+            if st['k'] == 'assign' and st['lhs']['local'] == 0 and not st['lhs']['proj']:
+                ret = st
+        t = bl['term']
+        k = t['k']
+        if k == 'call':
+            c = t.get('callee')
+            if c and watch and _re.search(watch, c['path']):
+                vals = []
+                for a in t['args']:
+                    vals.append(try_ev(body, body.expr(a), leaf))
+                calls.append((c['path'], vals, t['loc']))
+            if not t['dest']['proj'] and t['dest']['local'] == 0:
+                ret = t
+            if t.get('target', -1) is None or t.get('target', -1) < 0:
+                return {'calls': calls, 'ret': ret, 'ok': True, 'diverged': True}
+            cur = t['target']
+        elif k in ('goto', 'drop', 'assert'):
+            cur = t['target']
+        elif k == 'switch':
+            v = try_ev(body, body.expr(t['discr']), leaf)
+            if isinstance(v, dict):
+                v = v.get('__discr__')
+            if not isinstance(v, int):
+                return {'calls': calls, 'ret': ret, 'ok': False, 'why': 'switch at bb%d not evaluable' % cur}
+            nxt = t['otherwise']
+            for val, tgt in t['vals']:
+                if val == v:
+                    nxt = tgt
+            cur = nxt
+        elif k == 'return':
+            return {'calls': calls, 'ret': ret, 'ok': True}
+        else:
+            return {'calls': calls, 'ret': ret, 'ok': False, 'why': k}
+    return {'calls': calls, 'ret': ret, 'ok': False, 'why': 'steps'}
